@@ -103,7 +103,10 @@ CLAIMED['C12'] = dict(
          'removed-unplaced, or complete new; temp names hidden from glob * and from the manager), for all prior '
          'cache contents, placement lists, ZooKeeper states, iteration orders and fault points; source constants and '
          'the write_safe call order regenerated from the AST each run (C12_source_constants); control flow tied by '
-         'differential execution of the real code with fault injection (exception and process kill).',
+         'differential execution of the real code with fault injection (exception and process kill). Start-up stage '
+         '(after a seeded change to EventMgr.run was missed): the real run(once=True) against a kazoo fake whose '
+         'watches fire on registration, the statement evaluated for the start-up synchronisation (check_existing); '
+         'EventMgr.run is part of the source-shape tie.',
     note='Atomicity of rename(2) and absence of torn reads are the definition of the file-system model; no durability '
          'claim (fsync=False); YAML as a sorted token list; kazoo fake; placed names non-dot, manifests are mappings, '
          'single writer.',
@@ -134,7 +137,9 @@ CLAIMED['C14'] = dict(
          'C14_exclusive, C14_no_takeover, C14_in_network, C14_hosts_only, C14_alloc_returns, C14_owner_only_release, '
          'C14_entry_survives, C14_nonowner_release_noop, C14_gc_exact, C14_sync_frees_stale, C14_reuse, '
          'C14_service_consistent; tied to the source on every run by differential execution of the real classes on '
-         'real temporary directories after every operation.',
+         'real temporary directories after every operation. Pools sharing one directory (after a seeded change to '
+         'VipMgr.initialize was missed): oracle-only stage with two or three real VipMgr pools over one directory '
+         '(harness/props/c14init.py); the three initialize() are part of the source-shape tie.',
     note='exclusivity under true concurrency rests on symlink(2) EEXIST (model definition); service-level consistency '
          'is claimed for the schedules services/_base_service.py produces (guarded); netdev/iptables are recording '
          'fakes; the tie is sampled (240 / 10 000 op sequences), not a translation.',
